@@ -17,6 +17,7 @@ import atexit
 import json
 import os
 import random
+import re
 import shutil
 import subprocess
 import sys
@@ -178,7 +179,7 @@ class Oracle:
         self.run_block = []
         self.given_between = False
         self._last_given = False
-        self.tables_dropped = 0
+        self.tables_reproduced = 0
 
     def snapshot(self):
         import sx
@@ -243,9 +244,7 @@ class Oracle:
                 for t2, s2 in steps:
                     if t2 in ('given', 'when'):
                         if s2[0] == 'send' and s2[2]:
-                            # reproduce re-issues the step NAME only: the Gherkin table is lost
-                            s2 = ('send', s2[1], [], s2[3])
-                            self.tables_dropped += 1
+                            self.tables_reproduced += 1      # the step is re-issued WITH its Gherkin table
                         if self.act(ty, s2) != 'Passed':
                             st = 'Failed'
                             break
@@ -411,6 +410,14 @@ def candidates(rng, o, kind):
                     out.append(('fired', e.name, [], (k, (v + 1) if isinstance(v, int) else 'zz')))
                     out.append(('fired', e.name, [(k, 'wrong')], (k, v)))          # inline overrides the table
                     out.append(('fired', e.name, [(k, v), ('nokey', None)], None))   # absent attribute is None
+                    wrong = (v + 1) if isinstance(v, int) and not isinstance(v, bool) else 'zz'
+                    out.append(('fired', e.name, [(k, wrong)], ('name', e.name)))    # EVERY listed parameter must match:
+                    out.append(('fired', e.name, [(k, wrong), ('name', e.name)], None))   # an early mismatch, the last one matching
+                    out.append(('fired', e.name, [('name', e.name), (k, v)], None))
+                    if len(data) >= 2:
+                        (k1, v1), (k2, v2) = data[0], data[-1]
+                        out.append(('fired', e.name, [(k1, 'zz'), (k2, v2)], None))
+                        out.append(('fired', e.name, [(k1, v1), (k2, v2)], None))
                     if v in (0, 1):
                         out.append(('fired', e.name, [], (k, bool(v))))            # True == 1
             out.append(('fired', e.name, [], ('nokey', rng.choice([None, 3]))))
@@ -563,7 +570,7 @@ def gen_feature(rng, sc, n_scen):
                           reproducible=all(st == 'Passed' for st, ln in zip(statuses, lines) if ln['ty'] != 'then')
                           and 'reproduce' not in uses or rng.random() < 0.3 and all(
                               st == 'Passed' for st, ln in zip(statuses, lines) if ln['ty'] != 'then'),
-                          interp=o.interp, tables_dropped=o.tables_dropped))
+                          interp=o.interp, tables_reproduced=o.tables_reproduced))
     return scens
 
 
@@ -727,6 +734,9 @@ def testing_queries(rng, sc, block, interp):
             if data:
                 k, v = data[0]
                 qs.append((e.name, [(k, 'no')]))
+                qs.append((e.name, [(k, 'no'), ('name', e.name)]))      # every listed parameter must match, not just the last
+                qs.append((e.name, [('name', e.name), (k, 'no')]))
+                qs.append((None, [(k, 'no')] + data[1:] + [('name', e.name)]))
             qs.append((e.name, [('absent', None)]))
             qs.append((e.name, [('absent', 1)]))
         for n, ps in qs:
@@ -818,7 +828,7 @@ def chart_task(args):
             oracle_status=s['oracle_status'], behave=res.get(s['name']), script=script, thens=thens,
             ops=[(o[0],) + tuple(o[1:]) for o in s['ops']],
             rec_ops=None if rl is None else [(x[0],) if x[0] == 'execute' else x for x in rl],
-            tables_dropped=s['tables_dropped'],
+            tables_reproduced=s['tables_reproduced'],
             impl_macros_ok=impl_macros_ok))
         # sismic.testing on the last block of this scenario
         blk = next((td['block'] for td in reversed(s['thens']) if td is not None), None)
@@ -890,9 +900,11 @@ CASE_HEADER = '''Add LoadPath "/verif/coq/gen" as SismicGen.
 From Coq Require Import QArith NArith.
 From Sismic Require Import Base Chart Interp Bdd BddCorr.
 From SismicGen Require Import GeneratedSteps.
+From SismicProofs Require Import BddProofs.
 Open Scope string_scope.
 Open Scope list_scope.
 '''
+PATS = ['GeneratedSteps.patterns']     # Doc.patterns when the extractor could not read steps.py (fail-soft)
 
 
 def write_case_file(fn, charts, ci):
@@ -911,7 +923,7 @@ def write_case_file(fn, charts, ci):
                 rows.append(c_case('ft_%d' % ci_, 'st_%d' % ci_, s))
                 index.append((ci_, si))
         f.write('Definition cases : list bcase := [\n%s\n].\n' % ';\n'.join(rows))
-        f.write('Eval vm_compute in (check_cases %s GeneratedSteps.patterns cases).\n' % cbool(ci))
+        f.write('Eval vm_compute in (check_cases %s %s cases).\n' % (cbool(ci), PATS[0]))
     return index
 
 
@@ -1023,7 +1035,7 @@ def write_mcase_file(fn, mres):
                 cs(r[0]), clist(r[1], lambda kv: '(%s, %s)' % (cs(kv[0]), cs(kv[1]))))
             rows.append('mkM %s %s %s' % (cs(ty), cs(text), impl))
         f.write('Definition cases : list mcase := [\n%s\n].\n' % ';\n'.join(rows))
-        f.write('Eval vm_compute in (check_mcases %s GeneratedSteps.patterns cases).\n' % cbool(mres['ci']))
+        f.write('Eval vm_compute in (check_mcases %s %s cases).\n' % (cbool(mres['ci']), PATS[0]))
     return cases
 
 
@@ -1195,6 +1207,11 @@ def main(tier, seed):
     rc, out = run(['timeout', '300', 'coqc', '-Q', 'theories', 'Sismic', '-Q', 'gen', 'SismicGen', 'gen/GeneratedSteps.v'],
                   400, cwd=COQ)
     gen_ok = rc == 0
+    fallback = bool(notes)
+    if fallback:
+        # DESIGN 4.4: an unreadable (refactored) steps.py is no alarm by itself: the behavioural
+        # correspondence runs with the documented pattern list instead of the extracted one
+        PATS[0] = 'Doc.patterns'
     d = gen_dir(PROP)
     with open(os.path.join(d, 'Dispatch.v'), 'w') as f:
         f.write(DISPATCH_V)
@@ -1206,9 +1223,9 @@ def main(tier, seed):
     corpus = load_corpus()
     from concurrent.futures import ProcessPoolExecutor
     with ProcessPoolExecutor(max_workers=NCPU) as ex:
+        fc = [ex.submit(corpus_task, c) for c in corpus]      # the corpus (regression seeds) is replayed first
         fm = ex.submit(matcher_task, (seed, 1 if tier == 'quick' else 6))
         fcli = ex.submit(cli_task, corpus)
-        fc = [ex.submit(corpus_task, c) for c in corpus]
         results = list(ex.map(chart_task_safe, tasks, chunksize=1))
         try:
             mres = fm.result()
@@ -1245,10 +1262,19 @@ def main(tier, seed):
     mcases = write_mcase_file(mfile, mres)
     dfile = os.path.join(d, 'Dispatch.v')
     t2 = time.time()
-    res = coq_eval_files(PROP, files + tfiles + [mfile, dfile]) if gen_ok else []
+    res = coq_eval_files(PROP, files + tfiles + [mfile] + ([] if fallback else [dfile])) if gen_ok else []
     t_coq = time.time() - t2
     by_file = {fn: (rc, out) for fn, rc, out in res}
     n_viol = 0
+    # ---- corpus
+    n_corpus = 0
+    for fn, bad, n in cres:
+        n_corpus += n
+        for b in bad:
+            v.violation(dict(property=PROP, kind='corpus', file=os.path.join(CORPUS, fn), **b,
+                             how_to_replay='cd /verif && ./check C19 --replay %s' % os.path.join(CORPUS, fn)),
+                        tag=re.sub(r'[^A-Za-z0-9_]+', '_', 'c_%s_%s' % (fn[:-5], b['scenario'])))
+            n_viol += 1
     coq_fail = []
     # ---- (b),(c): model and fact_b against behave
     BIT = {1: 'exact status differs (informational unless another bit is set)', 2: 'model verdict != behave verdict',
@@ -1272,7 +1298,7 @@ def main(tier, seed):
     for ci_, si, code in model_mism:
         ch, s = by_idx[ci_], by_idx[ci_]['scens'][si]
         why = '; '.join(t for b, t in BIT.items() if code & b)
-        genuine = (code & 4) != 0 or s['behave'] != s['oracle_status']
+        genuine = (code & 4) != 0 or s['behave'] != s['oracle_status'] or ((code & 16) != 0 and s['rec_ops'] is not None)
         v.violation(replay_obj(ch, s, 'Coq model / fact_b disagrees with behave: ' + why, dict(mask=code)),
                     tag='m%d_%d' % (ci_, si), no_input=not genuine)
         n_viol += 1
@@ -1283,7 +1309,7 @@ def main(tier, seed):
     usage = dict(repeat=0, reproduce=0, table=0, inline_param=0, unknown_state=0, hook_error_no_when=0,
                  given_between_whens=0, stale_block=0, stale_block_strict_reading_differs=0,
                  given_between_strict_reading_differs=0, exec_raised=0, intermediate_then=0, skipped_after_failure=0,
-                 unquoted_expression=0, failing_action=0, reproduce_dropped_a_table=0, raising_expression=0)
+                 unquoted_expression=0, failing_action=0, reproduced_steps_with_table=0, raising_expression=0)
     impl_traces = 0
     samples = []
     for ci_, ch in charts:
@@ -1293,7 +1319,7 @@ def main(tier, seed):
                 n_viol += 1
                 continue
             n_cases += 1
-            usage['reproduce_dropped_a_table'] += s.get('tables_dropped', 0)
+            usage['reproduced_steps_with_table'] += s.get('tables_reproduced', 0)
             if s['impl_macros_ok']:
                 impl_traces += 1
             elif s['impl_macros_ok'] is False and (ci_, si) not in [(a, b) for a, b, _ in model_mism]:
@@ -1400,23 +1426,16 @@ def main(tier, seed):
                          error=mres['error'], how_to_replay="PYTHONPATH=%s /venv/bin/python -c 'import sismic.bdd.steps'" % REPO),
                     tag='import')
         n_viol += 1
-    # ---- corpus
-    n_corpus = 0
-    for fn, bad, n in cres:
-        n_corpus += n
-        for b in bad:
-            v.violation(dict(property=PROP, kind='corpus', file=os.path.join(CORPUS, fn), **b,
-                             how_to_replay='cd /verif && ./check C19 --replay %s' % os.path.join(CORPUS, fn)),
-                        tag='c_%s_%s' % (fn[:-5], b['scenario']))
-            n_viol += 1
     for b in cli_bad:
         v.violation(dict(property=PROP, kind='cli', broken_or_failing='python -m sismic.bdd on a corpus seed', **b),
-                    tag='cli_%s' % (b.get('scenario') or 'run'))
+                    tag=re.sub(r'[^A-Za-z0-9_]+', '_', 'cli_%s' % (b.get('scenario') or 'run')))
         n_viol += 1
     # ---- dispatch obligations
     dispatch_ok = False
     rc, out = by_file.get(dfile, (1, 'not evaluated' if gen_ok else 'GeneratedSteps.v does not compile'))
-    if rc == 0:
+    if fallback and gen_ok:
+        dispatch_ok = None     # not checked: extractor could not read steps.py; see extractor_notes
+    elif rc == 0:
         dispatch_ok = True
     else:
         text, passed, sres = spelling_search()
@@ -1451,6 +1470,7 @@ def main(tier, seed):
             n_viol += 1
     cov = dict(
         obligations=info.get('obligations', 0) + 3, discharged=info.get('discharged', 0) + (3 if dispatch_ok else 0),
+        obligations_not_checked=(3 if dispatch_ok is None else 0),
         checker_cmd='cd /verif/coq && make && coqc props/C19_Props.v (Print Assumptions); harness/extract_steps.py; '
                     'coqc gen/GeneratedSteps.v gen/C19/Dispatch.v gen/C19/cases_*.v gen/C19/tcases_*.v gen/C19/mcases.v',
         trusted_base=TRUSTED_BASE + [
@@ -1470,6 +1490,7 @@ def main(tier, seed):
         testing_predicate_calls=n_t, matcher_queries=len(mcases), matcher_case_insensitive=mres['ci'],
         matcher_queries_where_behave_raised=len(mres['cases']) - len(mcases),
         extracted_step_definitions=len(defs), extractor_notes=notes, dispatch_obligations_ok=dispatch_ok,
+        pattern_list_used_by_the_model=PATS[0],
         exact_status_differences_informational=fine_only, corpus_scenarios=n_corpus,
         timing=dict(behave_s=round(t_behave, 1), coq_eval_s=round(t_coq, 1)),
         samples=samples,
@@ -1478,7 +1499,6 @@ def main(tier, seed):
             'steps does not end it (corpus/C19/given_between_whens.json), and `then; given; then` still sees the old block '
             '(corpus/C19/stale_block.json); counted above as given_between_whens / stale_block, with the number of generated '
             'assertions whose verdict would differ under the stricter reading',
-            'reproduce re-issues step names only: Gherkin tables of reproduced steps are dropped (corpus/C19/reproduce_drops_table.json)',
             'every repeat/reproduce step performs one more execute() of its own after its nested steps (no observable effect on a quiescent interpreter)'],
         source_blobs=repo_blob_ids(['sismic/bdd/steps.py', 'sismic/bdd/environment.py', 'sismic/bdd/wrappers.py', 'sismic/testing.py']),
         proof_info={k: info.get(k) for k in ('build_ok', 'closed', 'axioms', 'forbidden_tokens', 'own_files')},
